@@ -223,8 +223,15 @@ def run_warm(case, ctx):
         engine = m.FactoredInference(dom, **kw)
         np.random.seed(case['np_seed'] % (2 ** 32))
         total = float(case['N'])
-        for call in case['calls']:
+        min_prev = 1.0
+        for ci, call in enumerate(case['calls']):
             ms = [pool_tuples[i] for i in call['idx']]
+            if ci > 0:
+                # smallest cell mass (as a fraction of the total) of the model the next call starts from
+                for cl in model.cliques:
+                    v = np.asarray(model.project(cl).values, dtype=float)
+                    if v.size:
+                        min_prev = min(min_prev, float(v.min()) / float(model.total))
             with quiet(), np.errstate(all='ignore'):
                 model = engine.estimate(ms, total=total, engine=solver)
         last = [plain[i] for i in case['calls'][-1]['idx']]
@@ -254,9 +261,36 @@ def run_warm(case, ctx):
     ctx.stat('warm_start_relative_suboptimality', max(rel, 0.0))
     ctx.check(rel <= 0.03, 'warm_start_reaches_optimum', 'warm_start_suboptimal',
               '%s with warm start over %d calls (%d iterations each): loss %r, certified optimum %r, uniform %r (rel %.4f)' % (
-                  solver, len(case['calls']), iters, f, fstar, fu, rel), solver=solver)
+                  solver, len(case['calls']), iters, f, fstar, fu, rel), solver=solver, min_start_mass_fraction=min_prev)
+    ctx.stat('min_start_mass_fraction', min_prev)
     ctx.check(f >= fstar - gap - 1e-7 * scale - 1e-6 * max(fu - fstar, 0.0), 'warm_start_reaches_optimum', 'below_optimum',
               'warm-started model has loss %r below the certified lower bound %r' % (f, fstar - gap))
+
+
+def _f11(case, failure):
+    """F11: a warm-started mirror descent that starts from a model with (near-)zero-mass cells stalls: the
+    decrease of the loss is below floating-point resolution, the Armijo test reads 0 >= tiny and rejects,
+    the step size is halved 25 times per iteration and never recovers."""
+    d = failure.get('data', {})
+    try:
+        frac = float(d.get('min_start_mass_fraction', 1.0))
+    except Exception:
+        frac = 1.0
+    return failure['kind'] == 'warm_start_suboptimal' and d.get('solver') == 'MD' and frac <= 1e-9
+
+
+FINDINGS = {'F11': _f11}
+
+
+def fixed_cases(tier):
+    # witness of F11 (materialised): the first optimum puts ~5e-14 on bb=1; the second list needs mass there
+    pool = [dict(Q=np.eye(2), kind='identity', y=np.array([27.9, -7.3]), sigma=20.0, proj=('bb',)),
+            dict(Q=None, kind='none', y=np.array([-7.52, -2.15]), sigma=100.0, proj=('bb',)),
+            dict(Q=np.eye(2), kind='identity', y=np.array([8.65, 8.85]), sigma=5.0, proj=('bb',))]
+    mk = lambda idx: dict(idx=idx, solver='MD', total=20.0, options='omitted', callback=False, probe='none')
+    w = dict(kind='warm', attrs=['bb', 'a'], shape=[2, 2], pool=pool, calls=[mk([0]), mk([1, 2])], zeros=None, N=20.0,
+             iters=1000, log=False, spellings=['dense'] * 3, np_seed=3)
+    return [('witness:F11', w)]
 
 
 TECHNIQUE = 'runtime monitoring: recorded estimate histories on one engine compared call by call with a stateless reference (fresh engine on deep copies); answer snapshots and SHA-256 digests of caller-owned objects re-checked after every later call'
